@@ -276,6 +276,393 @@ Proof.
   - exact He.
   - assert (0 <= W * zlen ws) by (apply Z.mul_nonneg_nonneg; [lia|apply zlen_nonneg]). rewrite Nat2Z.inj_succ, Z2Nat.id by exact H. lia.
 Qed.
+
+(* ---- round 6: where the reported range lies relative to `end`.  Live: an iterator with a non-empty word stands on a word that
+   starts before end (true after init, kept by every call).  The call's range starts in a word q that starts before end, and
+   its unclipped end e0 lies at most at the end of a word q' that starts before end.  Consequences: when end is a multiple of
+   the word width nothing is ever clipped (e = e0 <= end, s < end); in general s < e <= end unless the run starts at or after
+   end inside the last, partial word (the recorded inverted range). *)
+Definition Live (it : riter) : Prop := ri_word it <> 0 -> ri_idx it < ri_end it.
+
+Lemma skip_live fuel it it1 : Live it -> ri_skip fuel W b ws it = Some it1 -> ri_idx it1 < ri_end it1.
+Proof.
+  intros HL H. destruct (ri_skip_spec W b ws fuel it it1 H) as (N0 & Ee & k & K0 & K1 & K2 & K3 & K4 & K5).
+  destruct (Z.eq_dec k 0) as [E|E].
+  - rewrite (K3 E) in *. apply HL. exact N0.
+  - destruct (K4 ltac:(lia)) as (_ & _ & W2). rewrite Ee. exact W2.
+Qed.
+
+Theorem next_inv2 it c hint s e it' : Inv it c -> Live it -> ri_next W b ws it hint = Some (s, e, it') ->
+  exists e0, c <= s < e0 /\ run c s false /\ run s e0 true /\ e = Z.min e0 (ri_end it) /\ ri_end it' = ri_end it /\
+   ((Inv it' e0 /\ exists p k, 0 <= k < W /\ e0 = W * p + k /\ Z.testbit (M p) k = false)
+    \/ (Inv it' e0 /\ ri_word it' = 0)
+    \/ (ri_word it' = 0 /\ ri_idx it' >= ri_end it' /\ e0 >= ri_end it)) /\
+   Live it' /\
+   exists q q', W * q <= s < W * q + W /\ W * q < ri_end it /\ W * q' < ri_end it /\ e0 <= W * q' + W.
+Proof.
+  intros HI HL H. unfold ri_next in H.
+  destruct (ri_skip (S (length ws)) W b ws it) as [it1|] eqn:Hs; [|discriminate].
+  pose proof (skip_live _ it it1 HL Hs) as X1.
+  destruct (skip_inv _ it c it1 HI Hs) as (c1 & (J1 & J2 & J3 & J4) & Hc & Hrun & Hn0 & He).
+  pose proof (range_word_run W (ri_word it1) HW J3 Hn0) as R. cbn zeta in R.
+  set (i := ctz (ri_word it1)) in *. set (bw := wlnot W (Z.lxor (ri_word it1) (wlnot W (shl_ones W i)))) in *.
+  destruct R as (R1 & R2 & R3 & R4 & R5 & R6).
+  set (p1 := ri_ptr it1) in *. set (x1 := ri_idx it1) in *.
+  assert (Mi : c1 - x1 <= i /\ Z.testbit (M p1) i = true).
+  { pose proof (J4 i R1) as B. rewrite R2 in B. symmetry in B. apply andb_true_iff in B. destruct B as [B1 B2]. apply Z.leb_le in B1. split; assumption. }
+  assert (Mlow : forall k, 0 <= k -> c1 - x1 <= k < i -> Z.testbit (M p1) k = false).
+  { intros k Hk0 Hk. pose proof (J4 k ltac:(lia)) as B. rewrite (R3 k) in B by lia. destruct (Z.leb_spec (c1 - x1) k); [|lia]. cbn [andb] in B. symmetry. exact B. }
+  assert (Rlow : run c (x1 + i) false).
+  { apply (run_app c c1); [exact Hrun|]. intros p k Hk Hr. assert (p = p1) by (apply (word_of_pos p p1 k Hk); lia). subst p. apply Mlow; lia. }
+  destruct (Z.eqb_spec bw 0) as [B0|B0].
+  - destruct (ri_extend (S (length ws)) W b ws (mkri p1 x1 (ri_end it1) 0) (x1 + i) (Z.min (x1 + W) (ri_end it1)) hint) as [it2 rend'] eqn:Hx.
+    injection H as Hs1 Hs2 Hs3. subst s e it'.
+    destruct (ri_extend_spec W b ws _ _ _ _ _ _ _ Hx) as (Ee & k & K0 & KF & KD). cbn [ri_ptr ri_idx ri_end ri_word] in *. cbn zeta in KD.
+    assert (Mhigh : forall q, i <= q < W -> Z.testbit (M p1) q = true).
+    { intros q Hq. pose proof (J4 q ltac:(lia)) as B. rewrite (proj1 R5 B0 q Hq) in B. symmetry in B. apply andb_true_iff in B. exact (proj2 B). }
+    assert (Rfull : run (x1 + i) (x1 + W * k + W) true).
+    { intros p q Hq Hr. assert (Hp : p1 <= p <= p1 + k) by nia. destruct (Z.eq_dec p p1) as [->|Hne].
+      - apply Mhigh. lia.
+      - destruct (KF (p - p1) ltac:(lia)) as [A _]. replace (p1 + (p - p1)) with p in A by ring. fold (M p) in A. rewrite A.
+        rewrite ones_testbit by lia. destruct (Z.ltb_spec q W); [reflexivity|lia]. }
+    assert (Hrk : (if k =? 0 then Z.min (x1 + W) (ri_end it1) else Z.min (x1 + W * k + W) (ri_end it1)) = Z.min (x1 + W * k + W) (ri_end it)).
+    { rewrite He. destruct (Z.eqb_spec k 0) as [->|_]; [f_equal; ring|reflexivity]. }
+    destruct KD as [(A & B)|[(A & B & C)|(A & B & C & D)]].
+    + exists (x1 + W * k + W). split; [nia|]. split; [exact Rlow|]. split; [exact Rfull|]. split; [rewrite B; exact Hrk|]. split; [rewrite Ee; exact He|].
+      assert (E2 : it2 = mkri (p1 + k) (W * (p1 + k)) (ri_end it1) 0).
+      { rewrite A. destruct (Z.eqb_spec k 0) as [->|_]; f_equal; lia. }
+      assert (Xk : W * (p1 + k) < ri_end it).
+      { rewrite <- He. destruct (Z.eq_dec k 0) as [->|Hk0]; [lia|]. destruct (KF k ltac:(lia)) as [_ Hlt]. lia. }
+      split; [|split; [rewrite E2; intros Hc0; cbn [ri_word] in Hc0; contradiction|exists p1, (p1 + k); split; [lia|split; [lia|split; [exact Xk|lia]]]]].
+      rewrite E2. right. left. split; [|reflexivity]. replace (x1 + W * k + W) with (W * (p1 + k) + W) by lia. apply inv_zero.
+    + exists (x1 + W * k + W). split; [nia|]. split; [exact Rlow|]. split; [exact Rfull|]. split; [rewrite C; exact Hrk|]. split; [rewrite Ee; exact He|].
+      assert (Xk : W * (p1 + k) < ri_end it).
+      { rewrite <- He. destruct (Z.eq_dec k 0) as [->|Hk0]; [lia|]. destruct (KF k ltac:(lia)) as [_ Hlt]. lia. }
+      assert (Wz : ri_word it2 = 0) by (rewrite B; cbn [ri_word]; destruct (k =? 0); reflexivity).
+      split; [|split; [intros Hc0; contradiction|exists p1, (p1 + k); split; [lia|split; [lia|split; [exact Xk|lia]]]]].
+      right. right. split; [exact Wz|]. rewrite B. cbn [ri_idx ri_end]. split; [lia|lia].
+    + rename C into D1. rename D into D2.
+      pose proof (first_zero W (mword W b ws (p1 + k + 1)) HW (HM (p1 + k + 1)) B) as F. cbn zeta in F.
+      set (j2 := ctz (wlnot W (mword W b ws (p1 + k + 1)))) in *. destruct F as (F1 & F2 & F3 & F4 & F5).
+      exists (x1 + W * k + W + j2). split; [nia|]. split; [exact Rlow|]. split.
+      { apply (run_app _ (x1 + W * k + W)); [exact Rfull|]. intros p q Hq Hr.
+        assert (p = p1 + k + 1) by (apply (word_of_pos p (p1 + k + 1) q Hq); lia). subst p. apply F3. lia. }
+      split; [rewrite D2, He; reflexivity|]. split; [rewrite Ee; exact He|].
+      split; [|split; [rewrite D1; intros _; cbn [ri_idx ri_end]; lia|exists p1, (p1 + k + 1); split; [lia|split; [lia|split; [lia|lia]]]]].
+      left. rewrite D1. split.
+      * unfold Inv. cbn [ri_idx ri_ptr ri_word]. split; [lia|]. split; [lia|]. split; [exact F4|].
+        intros q Hq. rewrite (F5 q Hq). replace (x1 + W * k + W + j2 - (x1 + W * k + W)) with j2 by ring. reflexivity.
+      * exists (p1 + k + 1), j2. split; [exact F1|]. split; [lia|exact F2].
+  - injection H as Hs1 Hs2 Hs3. subst s e it'. specialize (R6 B0). cbn zeta in R6. set (j := ctz bw) in *.
+    destruct R6 as (S1 & S2 & S3 & S4 & S5).
+    exists (x1 + j). split; [lia|]. split; [exact Rlow|]. split.
+    { intros p q Hq Hr. assert (p = p1) by (apply (word_of_pos p p1 q Hq); lia). subst p.
+      pose proof (J4 q Hq) as Bq. rewrite (S2 q) in Bq by lia. symmetry in Bq. apply andb_true_iff in Bq. exact (proj2 Bq). }
+    split; [rewrite He; reflexivity|]. split; [exact He|].
+    split; [|split; [intros _; cbn [ri_idx ri_end]; exact X1|exists p1, p1; split; [lia|split; [lia|split; [lia|lia]]]]].
+    left. split.
+    + unfold Inv. cbn [ri_idx ri_ptr ri_word]. split; [exact J1|]. split; [lia|]. split; [exact S4|].
+      intros q Hq. rewrite (S5 q) by lia. rewrite (J4 q Hq). replace (x1 + j - x1) with j by ring.
+      destruct (Z.leb_spec j q); [|reflexivity]. destruct (Z.leb_spec (c1 - x1) q); [reflexivity|lia].
+    + exists p1, j. split; [lia|]. split; [lia|]. pose proof (J4 j ltac:(lia)) as Bj. rewrite S3 in Bj.
+      destruct (Z.leb_spec (c1 - x1) j); [|lia]. cbn [andb] in Bj. symmetry. exact Bj.
+Qed.
+
+
+Lemma init_live start end_ : Live (ri_init W b ws start end_).
+Proof.
+  unfold Live, ri_init. cbn [ri_word ri_idx ri_end]. destruct (Z.ltb_spec (start / W * W) end_); [intros _; assumption|intros Hc; contradiction].
+Qed.
+
+(* end a multiple of the word width (how JitAllocator calls it: whole words): NOTHING is clipped.  The ranges are exactly
+   increasing [s, e) inside [start, end), every position of a range holds b, no position between them does, and none after the
+   last one up to end. *)
+Fixpoint chaina (c en : Z) (rs : list (Z * Z)) : Prop :=
+  match rs with
+  | [] => run c en false
+  | (s, e) :: r => c <= s < e /\ e <= en /\ run c s false /\ run s e true /\ chaina e en r
+  end.
+
+Theorem ri_all_aligned hint m : forall fuel it c, Inv it c -> Live it -> 0 <= ri_ptr it -> ri_end it = W * m -> m <= zlen ws ->
+  W * zlen ws - c < Z.of_nat fuel -> chaina c (ri_end it) (ri_all fuel W b ws it hint).
+Proof.
+  induction fuel as [|f IH]; intros it c HI HL Hp He Hm Hf; cbn [ri_all].
+  - cbn [chaina]. intros p k Hk Hr. nia.
+  - destruct (ri_next W b ws it hint) as [[[s e] it']|] eqn:Hn.
+    2:{ cbn [chaina]. apply (next_none it c hint HI Hp); [nia|exact Hn]. }
+    destruct (next_inv2 it c hint s e it' HI HL Hn) as (e0 & H1 & H2 & H3 & H4 & H5 & H6 & HL' & q & q' & Q1 & Q2 & Q3 & Q4).
+    pose proof (next_ptr it hint s e it' Hn) as Hpp.
+    assert (Q5 : q' < m) by (rewrite He in Q3; nia).
+    assert (E0 : e0 <= ri_end it) by (rewrite He; nia).
+    assert (Ee : e = e0) by (rewrite H4; lia). clear H4. subst e.
+    cbn [chaina]. split; [exact H1|]. split; [exact E0|]. split; [exact H2|]. split; [exact H3|]. rewrite <- H5.
+    destruct H6 as [(I' & _)|[(I' & _)|(Z0 & Ze & Zb)]]; [apply (IH it' e0 I' HL'); [lia|rewrite H5; exact He|exact Hm|lia]|apply (IH it' e0 I' HL'); [lia|rewrite H5; exact He|exact Hm|lia]|].
+    destruct f as [|f']; cbn [ri_all]; [|rewrite (next_finished it' hint Z0 Ze)]; cbn [chaina]; intros p k Hk Hr; lia.
+Qed.
+
+Theorem ranges_aligned start m hint : 0 <= start < W * m -> m <= zlen ws -> chaina start (W * m) (ranges W b ws start (W * m) hint).
+Proof.
+  intros H0 Hm. unfold ranges.
+  assert (Hlt : start / W * W < W * m). { pose proof (Z.mul_div_le start W HW). lia. }
+  apply (ri_all_aligned hint m _ _ start (init_inv start (W * m) ltac:(lia) Hlt) (init_live start (W * m))).
+  - unfold ri_init. cbn [ri_ptr]. apply Z.div_pos; [|lia]. apply Z.mul_nonneg_nonneg; [apply Z.div_pos; lia|lia].
+  - reflexivity.
+  - exact Hm.
+  - assert (0 <= W * zlen ws) by (apply Z.mul_nonneg_nonneg; [lia|apply zlen_nonneg]). rewrite Nat2Z.inj_succ, Z2Nat.id by exact H. lia.
+Qed.
+
+
+(* ---- round 6: MAXIMALITY.  When the hint exceeds end (the default hint is SIZE_MAX) and end lies inside the vector, the extend
+   loop is never cut: it leaves only because the data ended or because it met a word that is not full. *)
+Lemma ri_extend_uncut : forall fuel it rstart rend hint it' rend',
+  ri_extend fuel W b ws it rstart rend hint = (it', rend') ->
+  ri_end it < hint -> ri_end it < 2 ^ 64 -> 0 <= rstart <= rend -> rend <= ri_end it -> rend <= ri_idx it + W ->
+  ri_end it <= ri_idx it + W * Z.of_nat fuel ->
+  exists k, 0 <= k /\
+    (forall j, 0 < j <= k -> mword W b ws (ri_ptr it + j) = Z.ones W /\ ri_idx it + W * j < ri_end it) /\
+    let rk := if k =? 0 then rend else Z.min (ri_idx it + W * k + W) (ri_end it) in
+    ((ri_idx it + W * k + W >= ri_end it /\ rend' = rk)
+     \/ (ri_idx it + W * k + W < ri_end it /\ mword W b ws (ri_ptr it + k + 1) <> Z.ones W /\
+         rend' = Z.min (ri_idx it + W * k + W + ctz (wlnot W (mword W b ws (ri_ptr it + k + 1)))) (ri_end it))).
+Proof.
+  induction fuel as [|f IH]; intros it rstart rend hint it' rend' H Hh H64 Hr Hre Hrw Hf; cbn [ri_extend] in H.
+  - injection H as <- <-. exists 0. split; [lia|]. split; [intros j Hj; lia|]. left. cbn [Z.eqb]. split; [lia|reflexivity].
+  - assert (Hm : (rend - rstart) mod 2 ^ 64 <? hint = true).
+    { apply Z.ltb_lt. rewrite Z.mod_small by lia. lia. }
+    rewrite Hm in H.
+    destruct (Z.geb_spec (ri_idx it + W) (ri_end it)) as [Hge|Hlt].
+    + injection H as <- <-. exists 0. split; [lia|]. split; [intros j Hj; lia|]. left. cbn [Z.eqb]. split; [lia|reflexivity].
+    + fold (mword W b ws (ri_ptr it + 1)) in H. destruct (Z.eqb_spec (mword W b ws (ri_ptr it + 1)) (Z.ones W)) as [E1|E1]; cbn [negb] in H.
+      * set (it1 := mkri (ri_ptr it + 1) (ri_idx it + W) (ri_end it) 0) in *.
+        assert (G1 : 0 <= rstart <= Z.min (ri_idx it + W + W) (ri_end it)) by lia.
+        assert (G2 : Z.min (ri_idx it + W + W) (ri_end it) <= ri_end it) by lia.
+        assert (G3 : Z.min (ri_idx it + W + W) (ri_end it) <= ri_idx it + W + W) by lia.
+        assert (G4 : ri_end it <= ri_idx it + W + W * Z.of_nat f) by (rewrite Nat2Z.inj_succ in Hf; lia).
+        destruct (IH it1 rstart _ hint it' rend' H Hh H64 G1 G2 G3 G4) as (k1 & K0 & KF & KD). cbn [it1 ri_ptr ri_idx ri_end] in *.
+        exists (k1 + 1). split; [lia|]. split.
+        { intros j Hj. destruct (Z.eq_dec j 1) as [->|Hne]; [split; [exact E1|lia]|].
+          destruct (KF (j - 1) ltac:(lia)) as [A B]. split; [rewrite <- A; f_equal; ring|lia]. }
+        destruct (Z.eqb_spec (k1 + 1) 0) as [Hc|_]; [lia|]. cbn zeta in KD |- *.
+        replace (ri_ptr it + (k1 + 1) + 1) with (ri_ptr it + 1 + k1 + 1) by ring.
+        replace (ri_idx it + W * (k1 + 1)) with (ri_idx it + W + W * k1) by ring.
+        destruct (Z.eqb_spec k1 0) as [K|K].
+        { subst k1. rewrite !Z.mul_0_r, !Z.add_0_r in *. destruct KD as [(A & B)|(A & B & C)]; [left; split; [exact A|exact B]|right; split; [exact A|split; [exact B|exact C]]]. }
+        { destruct KD as [(A & B)|(A & B & C)]; [left; split; [exact A|exact B]|right; split; [exact A|split; [exact B|exact C]]]. }
+      * injection H as <- <-. exists 0. split; [lia|]. split; [intros j Hj; lia|]. right.
+        rewrite !Z.mul_0_r, !Z.add_0_r. split; [lia|]. split; [exact E1|reflexivity].
+Qed.
+
+(* the same without an assumption on the hint: the loop may also stop because the range has reached the hint *)
+Lemma ri_extend_cut : forall fuel it rstart rend hint it' rend',
+  ri_extend fuel W b ws it rstart rend hint = (it', rend') ->
+  ri_end it < 2 ^ 64 -> 0 <= rstart <= rend -> rend <= ri_end it -> rend <= ri_idx it + W ->
+  ri_end it <= ri_idx it + W * Z.of_nat fuel ->
+  exists k, 0 <= k /\
+    (forall j, 0 < j <= k -> mword W b ws (ri_ptr it + j) = Z.ones W /\ ri_idx it + W * j < ri_end it) /\
+    let rk := if k =? 0 then rend else Z.min (ri_idx it + W * k + W) (ri_end it) in
+    ((hint <= rk - rstart /\ rend' = rk)
+     \/ (ri_idx it + W * k + W >= ri_end it /\ rend' = rk)
+     \/ (ri_idx it + W * k + W < ri_end it /\ mword W b ws (ri_ptr it + k + 1) <> Z.ones W /\
+         rend' = Z.min (ri_idx it + W * k + W + ctz (wlnot W (mword W b ws (ri_ptr it + k + 1)))) (ri_end it))).
+Proof.
+  induction fuel as [|f IH]; intros it rstart rend hint it' rend' H H64 Hr Hre Hrw Hf; cbn [ri_extend] in H.
+  - injection H as <- <-. exists 0. split; [lia|]. split; [intros j Hj; lia|]. right. left. cbn [Z.eqb]. split; [lia|reflexivity].
+  - rewrite (Z.mod_small (rend - rstart) (2 ^ 64)) in H by lia.
+    destruct (Z.ltb_spec (rend - rstart) hint) as [Hlt0|Hge0].
+    2:{ injection H as <- <-. exists 0. split; [lia|]. split; [intros j Hj; lia|]. left. cbn [Z.eqb]. split; [lia|reflexivity]. }
+    destruct (Z.geb_spec (ri_idx it + W) (ri_end it)) as [Hge|Hlt].
+    + injection H as <- <-. exists 0. split; [lia|]. split; [intros j Hj; lia|]. right. left. cbn [Z.eqb]. split; [lia|reflexivity].
+    + fold (mword W b ws (ri_ptr it + 1)) in H. destruct (Z.eqb_spec (mword W b ws (ri_ptr it + 1)) (Z.ones W)) as [E1|E1]; cbn [negb] in H.
+      * set (it1 := mkri (ri_ptr it + 1) (ri_idx it + W) (ri_end it) 0) in *.
+        assert (G1 : 0 <= rstart <= Z.min (ri_idx it + W + W) (ri_end it)) by lia.
+        assert (G2 : Z.min (ri_idx it + W + W) (ri_end it) <= ri_end it) by lia.
+        assert (G3 : Z.min (ri_idx it + W + W) (ri_end it) <= ri_idx it + W + W) by lia.
+        assert (G4 : ri_end it <= ri_idx it + W + W * Z.of_nat f) by (rewrite Nat2Z.inj_succ in Hf; lia).
+        destruct (IH it1 rstart _ hint it' rend' H H64 G1 G2 G3 G4) as (k1 & K0 & KF & KD). cbn [it1 ri_ptr ri_idx ri_end] in *.
+        exists (k1 + 1). split; [lia|]. split.
+        { intros j Hj. destruct (Z.eq_dec j 1) as [->|Hne]; [split; [exact E1|lia]|].
+          destruct (KF (j - 1) ltac:(lia)) as [A B]. split; [rewrite <- A; f_equal; ring|lia]. }
+        destruct (Z.eqb_spec (k1 + 1) 0) as [Hc|_]; [lia|]. cbn zeta in KD |- *.
+        replace (ri_ptr it + (k1 + 1) + 1) with (ri_ptr it + 1 + k1 + 1) by ring.
+        replace (ri_idx it + W * (k1 + 1)) with (ri_idx it + W + W * k1) by ring.
+        destruct (Z.eqb_spec k1 0) as [K|K].
+        { subst k1. rewrite !Z.mul_0_r, !Z.add_0_r in *. destruct KD as [(A & B)|[(A & B)|(A & B & C)]]; [left; split; [exact A|exact B]|right; left; split; [exact A|exact B]|right; right; split; [exact A|split; [exact B|exact C]]]. }
+        { destruct KD as [(A & B)|[(A & B)|(A & B & C)]]; [left; split; [exact A|exact B]|right; left; split; [exact A|exact B]|right; right; split; [exact A|split; [exact B|exact C]]]. }
+      * injection H as <- <-. exists 0. split; [lia|]. split; [intros j Hj; lia|]. right. right.
+        rewrite !Z.mul_0_r, !Z.add_0_r. split; [lia|]. split; [exact E1|reflexivity].
+Qed.
+
+(* the end of a reported range is the end of the data or a position that does not hold b *)
+Theorem next_maximal it c hint s e it' m : Inv it c -> Live it -> 0 <= ri_ptr it -> ri_end it = W * m -> m <= zlen ws ->
+  ri_end it < hint -> ri_end it < 2 ^ 64 -> ri_next W b ws it hint = Some (s, e, it') ->
+  e = ri_end it \/ exists p k, 0 <= k < W /\ e = W * p + k /\ Z.testbit (M p) k = false.
+Proof.
+  intros HI HL Hp0 He Hm Hh H64 H. unfold ri_next in H.
+  destruct (ri_skip (S (length ws)) W b ws it) as [it1|] eqn:Hs; [|discriminate].
+  pose proof (skip_live _ it it1 HL Hs) as X1.
+  destruct (ri_skip_spec W b ws _ it it1 Hs) as (_ & _ & k0 & K00 & _ & K02 & _).
+  destruct (skip_inv _ it c it1 HI Hs) as (c1 & (J1 & J2 & J3 & J4) & Hc & Hrun & Hn0 & Hee).
+  pose proof (range_word_run W (ri_word it1) HW J3 Hn0) as R. cbn zeta in R.
+  set (i := ctz (ri_word it1)) in *. set (bw := wlnot W (Z.lxor (ri_word it1) (wlnot W (shl_ones W i)))) in *.
+  destruct R as (R1 & R2 & R3 & R4 & R5 & R6).
+  set (p1 := ri_ptr it1) in *. set (x1 := ri_idx it1) in *.
+  assert (Mi : c1 - x1 <= i).
+  { pose proof (J4 i R1) as B. rewrite R2 in B. symmetry in B. apply andb_true_iff in B. destruct B as [B1 _]. apply Z.leb_le in B1. exact B1. }
+  assert (Xm : p1 < m) by (rewrite Hee, He in X1; nia).
+  assert (Xw : x1 + W <= ri_end it1) by (rewrite Hee, He; nia).
+  destruct (Z.eqb_spec bw 0) as [B0|B0].
+  - destruct (ri_extend (S (length ws)) W b ws (mkri p1 x1 (ri_end it1) 0) (x1 + i) (Z.min (x1 + W) (ri_end it1)) hint) as [it2 rend'] eqn:Hx.
+    injection H as Hs1 Hs2 Hs3. subst s e it'.
+    assert (U1 : ri_end it1 < hint) by (rewrite Hee; exact Hh).
+    assert (U2 : ri_end it1 < 2 ^ 64) by (rewrite Hee; exact H64).
+    assert (U0 : 0 <= x1) by (rewrite J1; nia).
+    assert (U3 : 0 <= x1 + i <= Z.min (x1 + W) (ri_end it1)) by lia.
+    assert (U4 : Z.min (x1 + W) (ri_end it1) <= ri_end it1) by lia.
+    assert (U5 : Z.min (x1 + W) (ri_end it1) <= x1 + W) by lia.
+    assert (U6 : ri_end it1 <= x1 + W * Z.of_nat (S (length ws))) by (rewrite Nat2Z.inj_succ; unfold zlen in Hm; rewrite Hee, He; nia).
+    destruct (ri_extend_uncut _ (mkri p1 x1 (ri_end it1) 0) _ _ _ _ _ Hx U1 U2 U3 U4 U5 U6) as (k & K0 & KF & KD). cbn [ri_ptr ri_idx ri_end] in *.
+    cbn zeta in KD. destruct KD as [(A & B)|(A & B & C)].
+    + left. rewrite B. destruct (Z.eqb_spec k 0) as [->|Hk].
+      * rewrite Hee in *. lia.
+      * destruct (KF k ltac:(lia)) as [_ Hlt]. assert (p1 + k < m) by (rewrite Hee, He in Hlt; nia).
+        assert (x1 + W * k + W <= ri_end it1) by (rewrite Hee, He; nia). rewrite Hee in *. lia.
+    + right. pose proof (first_zero W (mword W b ws (p1 + k + 1)) HW (HM (p1 + k + 1)) B) as F. cbn zeta in F.
+      set (j2 := ctz (wlnot W (mword W b ws (p1 + k + 1)))) in *. destruct F as (F1 & F2 & _).
+      assert (p1 + k + 1 < m) by (rewrite Hee, He in A; nia).
+      exists (p1 + k + 1), j2. split; [exact F1|]. split; [|exact F2]. rewrite C.
+      assert (x1 + W * k + W + j2 <= ri_end it1) by (rewrite Hee, He; nia). lia.
+  - injection H as Hs1 Hs2 Hs3. subst s e it'. specialize (R6 B0). cbn zeta in R6. set (j := ctz bw) in *.
+    destruct R6 as (S1 & S2 & S3 & S4 & S5). right. exists p1, j. split; [lia|]. split; [lia|].
+    pose proof (J4 j ltac:(lia)) as Bj. rewrite S3 in Bj. destruct (Z.leb_spec (c1 - x1) j); [|lia]. cbn [andb] in Bj. symmetry. exact Bj.
+Qed.
+
+(* for ANY hint: the end of a reported range is the end of the data, a position that does not hold b, or the range has reached
+   the hint (only then may a run be cut) *)
+Theorem next_maximal_or_hint it c hint s e it' m : Inv it c -> Live it -> 0 <= ri_ptr it -> ri_end it = W * m -> m <= zlen ws ->
+  ri_end it < 2 ^ 64 -> ri_next W b ws it hint = Some (s, e, it') ->
+  e = ri_end it \/ (exists p k, 0 <= k < W /\ e = W * p + k /\ Z.testbit (M p) k = false) \/ hint <= e - s.
+Proof.
+  intros HI HL Hp0 He Hm H64 H. unfold ri_next in H.
+  destruct (ri_skip (S (length ws)) W b ws it) as [it1|] eqn:Hs; [|discriminate].
+  pose proof (skip_live _ it it1 HL Hs) as X1.
+  destruct (ri_skip_spec W b ws _ it it1 Hs) as (_ & _ & k0 & K00 & _ & K02 & _).
+  destruct (skip_inv _ it c it1 HI Hs) as (c1 & (J1 & J2 & J3 & J4) & Hc & Hrun & Hn0 & Hee).
+  pose proof (range_word_run W (ri_word it1) HW J3 Hn0) as R. cbn zeta in R.
+  set (i := ctz (ri_word it1)) in *. set (bw := wlnot W (Z.lxor (ri_word it1) (wlnot W (shl_ones W i)))) in *.
+  destruct R as (R1 & R2 & R3 & R4 & R5 & R6).
+  set (p1 := ri_ptr it1) in *. set (x1 := ri_idx it1) in *.
+  assert (Mi : c1 - x1 <= i).
+  { pose proof (J4 i R1) as B. rewrite R2 in B. symmetry in B. apply andb_true_iff in B. destruct B as [B1 _]. apply Z.leb_le in B1. exact B1. }
+  assert (Xm : p1 < m) by (rewrite Hee, He in X1; nia).
+  assert (Xw : x1 + W <= ri_end it1) by (rewrite Hee, He; nia).
+  destruct (Z.eqb_spec bw 0) as [B0|B0].
+  - destruct (ri_extend (S (length ws)) W b ws (mkri p1 x1 (ri_end it1) 0) (x1 + i) (Z.min (x1 + W) (ri_end it1)) hint) as [it2 rend'] eqn:Hx.
+    injection H as Hs1 Hs2 Hs3. subst s e it'.
+    assert (U2 : ri_end it1 < 2 ^ 64) by (rewrite Hee; exact H64).
+    assert (U0 : 0 <= x1) by (rewrite J1; nia).
+    assert (U3 : 0 <= x1 + i <= Z.min (x1 + W) (ri_end it1)) by lia.
+    assert (U4 : Z.min (x1 + W) (ri_end it1) <= ri_end it1) by lia.
+    assert (U5 : Z.min (x1 + W) (ri_end it1) <= x1 + W) by lia.
+    assert (U6 : ri_end it1 <= x1 + W * Z.of_nat (S (length ws))) by (rewrite Nat2Z.inj_succ; unfold zlen in Hm; rewrite Hee, He; nia).
+    destruct (ri_extend_cut _ (mkri p1 x1 (ri_end it1) 0) _ _ _ _ _ Hx U2 U3 U4 U5 U6) as (k & K0 & KF & KD). cbn [ri_ptr ri_idx ri_end] in *.
+    cbn zeta in KD. destruct KD as [(A0 & B0')|[(A & B)|(A & B & C)]].
+    + right. right. rewrite B0'. exact A0.
+    + left. rewrite B. destruct (Z.eqb_spec k 0) as [->|Hk].
+      * rewrite Hee in *. lia.
+      * destruct (KF k ltac:(lia)) as [_ Hlt]. assert (p1 + k < m) by (rewrite Hee, He in Hlt; nia).
+        assert (x1 + W * k + W <= ri_end it1) by (rewrite Hee, He; nia). rewrite Hee in *. lia.
+    + right. left. pose proof (first_zero W (mword W b ws (p1 + k + 1)) HW (HM (p1 + k + 1)) B) as F. cbn zeta in F.
+      set (j2 := ctz (wlnot W (mword W b ws (p1 + k + 1)))) in *. destruct F as (F1 & F2 & _).
+      assert (p1 + k + 1 < m) by (rewrite Hee, He in A; nia).
+      exists (p1 + k + 1), j2. split; [exact F1|]. split; [|exact F2]. rewrite C.
+      assert (x1 + W * k + W + j2 <= ri_end it1) by (rewrite Hee, He; nia). lia.
+  - injection H as Hs1 Hs2 Hs3. subst s e it'. specialize (R6 B0). cbn zeta in R6. set (j := ctz bw) in *.
+    destruct R6 as (S1 & S2 & S3 & S4 & S5). right. left. exists p1, j. split; [lia|]. split; [lia|].
+    pose proof (J4 j ltac:(lia)) as Bj. rewrite S3 in Bj. destruct (Z.leb_spec (c1 - x1) j); [|lia]. cbn [andb] in Bj. symmetry. exact Bj.
+Qed.
+
+
+(* the same with MAXIMALITY: when moreover the hint exceeds end (default hint SIZE_MAX), every reported range ends at end or at a
+   position that does not hold b; with `run c s false` before it, the reported ranges are exactly the maximal runs of b *)
+Fixpoint chainx (c en : Z) (rs : list (Z * Z)) : Prop :=
+  match rs with
+  | [] => run c en false
+  | (s, e) :: r => c <= s < e /\ e <= en /\ run c s false /\ run s e true /\
+                   (e = en \/ exists p k, 0 <= k < W /\ e = W * p + k /\ Z.testbit (M p) k = false) /\ chainx e en r
+  end.
+
+Theorem ri_all_aligned_max hint m : forall fuel it c, Inv it c -> Live it -> 0 <= ri_ptr it -> ri_end it = W * m -> m <= zlen ws ->
+  ri_end it < hint -> ri_end it < 2 ^ 64 -> W * zlen ws - c < Z.of_nat fuel -> chainx c (ri_end it) (ri_all fuel W b ws it hint).
+Proof.
+  induction fuel as [|f IH]; intros it c HI HL Hp He Hm Hh H64 Hf; cbn [ri_all].
+  - cbn [chainx]. intros p k Hk Hr. nia.
+  - destruct (ri_next W b ws it hint) as [[[s e] it']|] eqn:Hn.
+    2:{ cbn [chainx]. apply (next_none it c hint HI Hp); [nia|exact Hn]. }
+    destruct (next_inv2 it c hint s e it' HI HL Hn) as (e0 & H1 & H2 & H3 & H4 & H5 & H6 & HL' & q & q' & Q1 & Q2 & Q3 & Q4).
+    pose proof (next_ptr it hint s e it' Hn) as Hpp.
+    assert (Q5 : q' < m) by (rewrite He in Q3; nia).
+    assert (E0 : e0 <= ri_end it) by (rewrite He; nia).
+    assert (Ee : e = e0) by (rewrite H4; lia). clear H4. subst e.
+    pose proof (next_maximal it c hint s e0 it' m HI HL Hp He Hm Hh H64 Hn) as Hmax.
+    cbn [chainx]. split; [exact H1|]. split; [exact E0|]. split; [exact H2|]. split; [exact H3|]. split; [exact Hmax|]. rewrite <- H5.
+    destruct H6 as [(I' & _)|[(I' & _)|(Z0 & Ze & Zb)]]; [apply (IH it' e0 I' HL'); [lia|rewrite H5; exact He|exact Hm|rewrite H5; exact Hh|rewrite H5; exact H64|lia]|apply (IH it' e0 I' HL'); [lia|rewrite H5; exact He|exact Hm|rewrite H5; exact Hh|rewrite H5; exact H64|lia]|].
+    destruct f as [|f']; cbn [ri_all]; [|rewrite (next_finished it' hint Z0 Ze)]; cbn [chainx]; intros p k Hk Hr; lia.
+Qed.
+
+Theorem ranges_aligned_max start m hint : 0 <= start < W * m -> m <= zlen ws -> W * m < hint -> W * m < 2 ^ 64 ->
+  chainx start (W * m) (ranges W b ws start (W * m) hint).
+Proof.
+  intros H0 Hm Hh H64. unfold ranges.
+  assert (Hlt : start / W * W < W * m). { pose proof (Z.mul_div_le start W HW). lia. }
+  apply (ri_all_aligned_max hint m _ _ start (init_inv start (W * m) ltac:(lia) Hlt) (init_live start (W * m))).
+  - unfold ri_init. cbn [ri_ptr]. apply Z.div_pos; [|lia]. apply Z.mul_nonneg_nonneg; [apply Z.div_pos; lia|lia].
+  - reflexivity.
+  - exact Hm.
+  - exact Hh.
+  - exact H64.
+  - assert (0 <= W * zlen ws) by (apply Z.mul_nonneg_nonneg; [lia|apply zlen_nonneg]). rewrite Nat2Z.inj_succ, Z2Nat.id by exact H. lia.
+Qed.
+
+
+(* ANY hint: a reported range ends at end, at a position that does not hold b, or has reached the hint (hint <= e - s) *)
+Fixpoint chainh (hint c en : Z) (rs : list (Z * Z)) : Prop :=
+  match rs with
+  | [] => run c en false
+  | (s, e) :: r => c <= s < e /\ e <= en /\ run c s false /\ run s e true /\
+                   (e = en \/ (exists p k, 0 <= k < W /\ e = W * p + k /\ Z.testbit (M p) k = false) \/ hint <= e - s) /\ chainh hint e en r
+  end.
+
+Theorem ri_all_aligned_hint hint m : forall fuel it c, Inv it c -> Live it -> 0 <= ri_ptr it -> ri_end it = W * m -> m <= zlen ws ->
+  ri_end it < 2 ^ 64 -> W * zlen ws - c < Z.of_nat fuel -> chainh hint c (ri_end it) (ri_all fuel W b ws it hint).
+Proof.
+  induction fuel as [|f IH]; intros it c HI HL Hp He Hm H64 Hf; cbn [ri_all].
+  - cbn [chainh]. intros p k Hk Hr. nia.
+  - destruct (ri_next W b ws it hint) as [[[s e] it']|] eqn:Hn.
+    2:{ cbn [chainh]. apply (next_none it c hint HI Hp); [nia|exact Hn]. }
+    destruct (next_inv2 it c hint s e it' HI HL Hn) as (e0 & H1 & H2 & H3 & H4 & H5 & H6 & HL' & q & q' & Q1 & Q2 & Q3 & Q4).
+    pose proof (next_ptr it hint s e it' Hn) as Hpp.
+    assert (Q5 : q' < m) by (rewrite He in Q3; nia).
+    assert (E0 : e0 <= ri_end it) by (rewrite He; nia).
+    assert (Ee : e = e0) by (rewrite H4; lia). clear H4. subst e.
+    pose proof (next_maximal_or_hint it c hint s e0 it' m HI HL Hp He Hm H64 Hn) as Hmax.
+    cbn [chainh]. split; [exact H1|]. split; [exact E0|]. split; [exact H2|]. split; [exact H3|]. split; [exact Hmax|]. rewrite <- H5.
+    destruct H6 as [(I' & _)|[(I' & _)|(Z0 & Ze & Zb)]]; [apply (IH it' e0 I' HL'); [lia|rewrite H5; exact He|exact Hm|rewrite H5; exact H64|lia]|apply (IH it' e0 I' HL'); [lia|rewrite H5; exact He|exact Hm|rewrite H5; exact H64|lia]|].
+    destruct f as [|f']; cbn [ri_all]; [|rewrite (next_finished it' hint Z0 Ze)]; cbn [chainh]; intros p k Hk Hr; lia.
+Qed.
+
+Theorem ranges_aligned_hint start m hint : 0 <= start < W * m -> m <= zlen ws -> W * m < 2 ^ 64 ->
+  chainh hint start (W * m) (ranges W b ws start (W * m) hint).
+Proof.
+  intros H0 Hm H64. unfold ranges.
+  assert (Hlt : start / W * W < W * m). { pose proof (Z.mul_div_le start W HW). lia. }
+  apply (ri_all_aligned_hint hint m _ _ start (init_inv start (W * m) ltac:(lia) Hlt) (init_live start (W * m))).
+  - unfold ri_init. cbn [ri_ptr]. apply Z.div_pos; [|lia]. apply Z.mul_nonneg_nonneg; [apply Z.div_pos; lia|lia].
+  - reflexivity.
+  - exact Hm.
+  - exact H64.
+  - assert (0 <= W * zlen ws) by (apply Z.mul_nonneg_nonneg; [lia|apply zlen_nonneg]). rewrite Nat2Z.inj_succ, Z2Nat.id by exact H. lia.
+Qed.
+
 End Compose.
 
 (* the words the iterator looks at are W-bit values when the vector's words are *)
@@ -295,3 +682,15 @@ Proof. intros HW Hws H0 Hlt. apply ranges_chain; [exact HW|apply mword_ok; assum
 Theorem ranges_sound_complete W (b : bool) ws start end_ hint : 0 < W -> words_ok W ws -> 0 <= start -> (start / W) * W < end_ ->
   end_ <= W * zlen ws -> chainc W b ws start end_ (ranges W b ws start end_ hint).
 Proof. intros HW Hws H0 Hlt He. apply ranges_complete; [exact HW|apply mword_ok; assumption|exact H0|exact Hlt|exact He]. Qed.
+
+Theorem ranges_aligned_sound W (b : bool) ws start m hint : 0 < W -> words_ok W ws -> 0 <= start < W * m -> m <= zlen ws ->
+  chaina W b ws start (W * m) (ranges W b ws start (W * m) hint).
+Proof. intros HW Hws H0 Hm. apply ranges_aligned; [exact HW|apply mword_ok; assumption|exact H0|exact Hm]. Qed.
+
+Theorem ranges_aligned_max_sound W (b : bool) ws start m hint : 0 < W -> words_ok W ws -> 0 <= start < W * m -> m <= zlen ws ->
+  W * m < hint -> W * m < 2 ^ 64 -> chainx W b ws start (W * m) (ranges W b ws start (W * m) hint).
+Proof. intros HW Hws H0 Hm Hh H64. apply ranges_aligned_max; [exact HW|apply mword_ok; assumption|exact H0|exact Hm|exact Hh|exact H64]. Qed.
+
+Theorem ranges_aligned_hint_sound W (b : bool) ws start m hint : 0 < W -> words_ok W ws -> 0 <= start < W * m -> m <= zlen ws ->
+  W * m < 2 ^ 64 -> chainh W b ws hint start (W * m) (ranges W b ws start (W * m) hint).
+Proof. intros HW Hws H0 Hm H64. apply ranges_aligned_hint; [exact HW|apply mword_ok; assumption|exact H0|exact Hm|exact H64]. Qed.
